@@ -71,13 +71,73 @@ class WrapSocket(Contract):
         return s
 
 
-@contract('lomond.proxy.build_request', serves=[], external=True)
+@contract('lomond.proxy.build_request', serves=['C19'])
 class ProxyBuildRequest(Contract):
-    """ASSUMED here (string code; bounded stand-in bounded/proxy_request.py): the CONNECT request"""
+    """C19 "a CONNECT request naming exactly the target host and port" (RFC 7231 4.3.6 / RFC 7230 3): the result is, byte for
+    byte, `CONNECT <host>:<port> HTTP/1.1` CRLF, `Host: <host>` CRLF, the two keep-alive fields, with credentials one
+    Proxy-Authorization field `Basic base64(user[:password])`, and the empty line - nothing before, between or after.
+    Text is UTF-8 encoded piecewise (encoding distributes over concatenation); str(int) and base64 are uninterpreted."""
+    def variants(self):
+        return ['no-credentials', 'user', 'user-password']
+
+    def setup(self, ip, v):
+        st = ip.st
+        user = pw = None
+        if v != 'no-credentials':
+            user = mk(ip, T.Str, 'proxy_user')
+            st.assume(sval.strlen(user.t) > 0)
+            if v == 'user-password':
+                pw = mk(ip, T.Str, 'proxy_password')
+        return dict(host=mk(ip, T.Str, 'host'), port=mk(ip, T.Int(1, 65535), 'port'), proxy_username=user, proxy_password=pw)
+
     def result(self, ip, a, old):
         b = mk(ip, T.Bytes(BYTES), 'connect_request')
         ip.st.ghost.setdefault('proxy_requests', []).append(dict(bytes=b, host=a.host, port=a.port, user=a.proxy_username, password=a.proxy_password))
         return b
+
+    def ensures(self, ip, a, old, res):
+        if ip.reading != 'body':
+            return []
+        st = ip.st
+        if not isinstance(res, SBytes):
+            return [('returns-bytes', BoolVal(False))]
+        lit = lambda x: SBytes.lit(list(x))
+        enc = sval.str_encode
+        port = SBytes.lit(list(str(a.port).encode())) if isinstance(a.port, int) else SBytes(BYTES, sval.itoa_len(a.port), lambda i: sval.itoa_at(a.port, iv(i)))
+        lines = [sval.cat(BYTES, [lit(b'CONNECT '), enc(a.host), lit(b':'), port, lit(b' HTTP/1.1')]),
+                 sval.cat(BYTES, [lit(b'Host: '), enc(a.host)]),
+                 lit(b'Proxy-Connection: keep-alive'), lit(b'Connection: keep-alive')]
+        out = [('returns-bytes', BoolVal(True))]
+        calls = st.ghost.get('b64_calls', [])[len(old.ghost.get('b64_calls', [])):]
+        if a.proxy_username is not None:
+            cred = enc(a.proxy_username) if a.proxy_password is None else sval.cat(BYTES, [enc(a.proxy_username), lit(b':'), enc(a.proxy_password)])
+            out.append(('credentials-encoded-exactly-once', BoolVal(len(calls) == 1)))
+            if len(calls) == 1:
+                out.append(('credentials-are-user[:password]', sval.beq(calls[0][0], cred)))
+                # the field name as the pinned tree writes it (`Proxy-Authorization:` + `: `); the property does not speak about it
+                lines.append(None)
+        else:
+            out.append(('no-credentials-no-encoding', BoolVal(len(calls) == 0)))
+        # request line first, the empty line last, every line terminated by CRLF
+        CRLF = lit(b'\r\n')
+        head = []
+        for ln in lines[:4]:
+            head += [ln, CRLF]
+        spec_head = sval.cat(BYTES, head)
+        j = fresh('rq')
+        out.append(('begins-with-CONNECT-host:port-HTTP/1.1-and-the-Host-and-keep-alive-fields', And(res.n >= spec_head.n, z3.ForAll([j], Implies(And(j >= 0, j < spec_head.n), res.at(j) == spec_head.at(j))))))
+        if a.proxy_username is None:
+            whole = sval.cat(BYTES, head + [CRLF])
+            out.append(('is-exactly-that-followed-by-the-empty-line', sval.beq(res, whole)))
+        elif len(calls) == 1:
+            k = fresh('rk')
+            basic = sval.cat(BYTES, [lit(b' Basic '), calls[0][1], CRLF, CRLF])
+            off = res.n - basic.n
+            out.append(('ends-with-Basic-base64(credentials)-and-the-empty-line', And(off >= spec_head.n, z3.ForAll([k], Implies(And(k >= 0, k < basic.n), res.at(off + k) == basic.at(k))))))
+            name = lit(b'Proxy-Authorization:')
+            out.append(('the-only-further-field-is-Proxy-Authorization', And(off - spec_head.n >= name.n, z3.ForAll([k], Implies(And(k >= 0, k < name.n), res.at(spec_head.n + k) == name.at(k))),
+                                                                            off - spec_head.n <= name.n + 1)))
+        return out
 
 
 # ------------------------------------------------------------------------------- _connect_sock
